@@ -1,551 +1,14 @@
-"""Self-test of the checkers: textual mutants of the current /repo sources, applied in memory
-(never written to /repo).  Each entry: (property, module, old, new, expectation[, rule]).
-expectation: 'V' the check must report a *new* violation (optionally of `rule`);
-             'OK' behaviour-preserving edit: no new finding, no analysis error.
-usage: mutants.py [Cxx ...]
-"""
+"""Self-test of the checkers over the sensitivity controls in hsverify/controls.py.
+usage: mutants.py [Cxx ...]"""
 import os
 import sys
 
 HERE = os.path.dirname(os.path.abspath(__file__))
 sys.path.insert(0, os.path.dirname(HERE))
 import check  # noqa: E402
-from hsverify import findings, model  # noqa: E402
+from hsverify import controls, model  # noqa: E402
 
-M = []
-
-
-def mut(prop, module, old, new, expect='V', rule=None, name=None):
-    M.append((prop, module, old, new, expect, rule, name))
-
-
-# ---- C20 ---------------------------------------------------------------------------
-mut('C20', 'datatypes', 'return self.value - other', 'return other - self.value')
-mut('C20', 'datatypes', 'return other / self.value', 'return other * self.value')
-mut('C20', 'datatypes', """    def __mod__(self, other):
-        if isinstance(other, Qty):
-            other = other.value
-""", """    def __mod__(self, other):
-""")
-mut('C20', 'datatypes', 'self._cmp_op(other, lambda x, y: x >= y)', 'self._cmp_op(other, lambda x, y: x > y)')
-mut('C20', 'datatypes', """    def __rpow__(self, other):  # pragma: no cover
-        # Unlikely due to Qty supporting these ops directly
-        if isinstance(other, Qty):
-            other = other.value
-        return pow(other, self.value)
-""", '')
-mut('C20', 'datatypes', 'return pow(self.value, other, modulo)', 'return pow(self.value, other)')
-mut('C20', 'datatypes', 'if other.unit != self.unit:', 'if other.unit == self.unit:')
-mut('C20', 'datatypes', 'return op(self.value, other.value)', 'return op(other.value, self.value)')
-mut('C20', 'datatypes', 'return abs(self.value)', 'return self.value')
-mut('C20', 'datatypes', 'return ~self.value', 'return -self.value')
-mut('C20', 'datatypes', """    def __xor__(self, other):
-        if isinstance(other, Qty):""", """    def __xor__(self, other):
-        if isinstance(other, BasicQuantity):""")
-mut('C20', 'datatypes', 'return self.value + other', 'return (self.value + other)', 'OK')
-mut('C20', 'datatypes', """        if isinstance(other, Qty):
-            other = other.value
-        return self.value * other""", """        other = other.value if isinstance(other, Qty) else other
-        return self.value * other""", 'OK')
-mut('C20', 'datatypes', 'self.value = value', 'self.value = float(value)')
-mut('C20', 'datatypes', "return self.value // other", "return self.value / other")
-
-# ---- C18 ---------------------------------------------------------------------------
-mut('C18', 'version', 'return self._cmp(other) < 1', 'return self._cmp(other) < 0')
-mut('C18', 'version', 'return self._cmp(other) > -1', 'return self._cmp(other) >= 0', 'OK')
-mut('C18', 'version', """        if self.version_extra is None:
-            if other.version_extra is None:
-                return 0
-            else:
-                return -1
-        elif other.version_extra is None:
-            return 1""", """        if self.version_extra is None:
-            if other.version_extra is None:
-                return 0
-            else:
-                return 1
-        elif other.version_extra is None:
-            return -1""")
-mut('C18', 'version', "int(p or 0) \\\n                    for p in", "(p or '0') \\\n                    for p in")
-mut('C18', 'version', '        num2 += tuple([0 for n in range(len(num2), ver_len)])\n', '')
-mut('C18', 'version', 'elif self.version_extra < other.version_extra:', 'elif self.version_extra > other.version_extra:')
-mut('C18', 'version', 'elif self.version_extra < other.version_extra:', 'elif self.version_extra <= other.version_extra:', 'OK')
-mut('C18', 'version', 'versions.sort(reverse=True)', 'versions.sort()')
-mut('C18', 'version', """            if candidate == ver:
-                # We can't beat this, make a note of the match for later
-                return candidate
-""", '')
-mut('C18', 'version', 'if (best is None) and (candidate < ver):', 'if (best is None) and (candidate > ver):')
-mut('C18', 'version', """            if p1 < p2:
-                return -1
-            elif p1 > p2:
-                return 1""", """            if p1 > p2:
-                return 1
-            if p1 < p2:
-                return -1""", 'OK')
-mut('C18', 'version', """        if not isinstance(other, Version):
-            other = Version(other)
-
-        num1""", """        num1""")
-mut('C18', 'version', "elif self.version_extra == other.version_extra:\n            return 0",
-    "elif self.version_extra == other.version_extra:\n            return 1")
-
-# ---- C16 ---------------------------------------------------------------------------
-mut('C16', 'sortabledict', "            index += 1\n", "            index += 2\n")
-mut('C16', 'sortabledict', "        if after and (index is not None):", "        if (not after) and (index is not None):")
-mut('C16', 'sortabledict', """                del self[key]
-                if (pos_key""", """                if (pos_key""", name='relocation without delete')
-mut('C16', 'sortabledict', """                if (pos_key is not None) and (old_index < index):
-                    # The position of pos_key was looked up before the key
-                    # was removed from in front of it: it has moved down one.
-                    index -= 1
-""", "", name='revert fix: stale position')
-mut('C16', 'sortabledict', "(old_index < index):", "(old_index > index):", name='stale adjust wrong direction')
-mut('C16', 'sortabledict', """            if not replace:
-                raise KeyError('%r is duplicate' % key)
-""", "")
-mut('C10', 'sortabledict', """        if self._validate_fn:
-            self._validate_fn(value)
-
-        if (index""", """        if (index""", name='drop validator call')
-mut('C16', 'sortabledict', "self._order.insert(index, key)", "self._order.insert(index + 1, key)")
-mut('C16', 'sortabledict', """                # We are updating
-                self._values[key] = value
-                return""", """                # We are updating
-                self._values[key] = value
-                self._order.remove(key)
-                self._order.append(key)
-                return""")
-mut('C16', 'sortabledict', """        del self._values[key]
-        self._order.remove(key)""", """        self._order.remove(key)
-        del self._values[key]""")
-mut('C16', 'sortabledict', "return self._order[index]", "return self._order[index - 1]")
-mut('C16', 'metadata', "def append(self, key, value=MARKER, replace=True):", "def append(self, key, value=None, replace=True):")
-mut('C16', 'metadata', "self.append(key, value, replace=replace)", "self.append(key, value)")
-mut('C16', 'sortabledict', """            # Place at end
-            self._order.append(key)
-        self._values[key] = value""", """            # Place at end
-            self._values[key] = value
-            self._order.append(key)
-            return
-        self._values[key] = value""", 'OK')
-mut('C16', 'sortabledict', """        if self._validate_fn:
-            self._validate_fn(value)
-""", """        if self._validate_fn:
-            self._validate_fn(value)
-        self._values[key] = value
-""", name='store before refusals')
-
-# ---- C19 ---------------------------------------------------------------------------
-mut('C19', 'datatypes', """        if not isinstance(other, Ref):
-            return NotImplemented
-        return not (self == other)""", """        if not isinstance(other, Ref):
-            return NotImplemented
-        return (self == other)""")
-mut('C19', 'datatypes', "return hash(self.latitude) ^ hash(self.longitude)", "return hash(self.latitude) ^ hash(self.longitude) ^ hash(id(self))")
-mut('C19', 'datatypes', """               (self.has_value == other.has_value) and \\
-               (self.value == other.value)""", """               True""")
-mut('C19', 'datatypes', """    def __deepcopy__(self, memo):
-        return self""", """    def __deepcopy__(self, memo):
-        return self.__class__()""")
-mut('C19', 'grid', """        if len(self) != len(other):
-            return False
-""", "")
-mut('C19', 'grid', "if set(self.column.keys()) != set(other.column.keys()):", "if set(self.column.keys()) == set(other.column.keys()):")
-mut('C19', 'datatypes', "        return (self.latitude == other.latitude) and \\\n               (self.longitude == other.longitude)",
-    "        return (self.latitude == other.latitude) or \\\n               (self.longitude == other.longitude)")
-mut('C19', 'datatypes', "REMOVE = RemoveType()", "REMOVE = RemoveType()\nREMOVE_2 = RemoveType()")
-
-# ---- C14 / C15 -----------------------------------------------------------------------
-mut('C14', 'grid', "        return len(self._row)", "        return len(self._row) - 1")
-mut('C14', 'grid', """        if not isinstance(value, dict):
-            raise TypeError('value must be a dict')
-        for val in value.values():
-            self._detect_or_validate(val)
-        self._row.insert(index, value)""", """        if not isinstance(value, dict):
-            raise TypeError('value must be a dict')
-        self._row.insert(index, value)
-        for val in value.values():
-            self._detect_or_validate(val)""", name='insert: write before validation')
-mut('C14', 'grid', """        if not isinstance(value, dict):
-            raise TypeError('value must be a dict')
-        for val in value.values():
-            self._detect_or_validate(val)
-        self._row.insert""", """        for val in value.values():
-            self._detect_or_validate(val)
-        self._row.insert""", name='insert: no TypeError guard')
-mut('C14', 'grid', "self._row.insert(index, value)", "self._row.insert(index + 1, value)")
-mut('C14', 'grid', "result._row=self._row[key]", "result._row=self._row")
-mut('C14', 'grid', "result=Grid(version=self.version,metadata=self.metadata,columns=self.column)", "result=Grid(version=self.version,columns=self.column)")
-mut('C14', 'grid', "            return self._row[key]", "            return self._row[abs(key)]")
-mut('C14', 'grid', """        del self._row[index]
-        self.reindex()""", """        if "id" in self._row[index]:
-            self._index.pop(self._row[index]['id'], None)
-        del self._row[index]""", name='revert fix: delitem')
-mut('C15', 'grid', """        del self._row[index]
-        self.reindex()""", """        if "id" in self._row[index]:
-            self._index.pop(self._row[index]['id'], None)
-        del self._row[index]""", name='revert fix: delitem')
-mut('C15', 'grid', """        self._row[index] = value
-        # Rebuild the id index: the replaced row's entry must go (unless the
-        # same row is still present elsewhere) and the new one must appear.
-        self.reindex()""", """        self._row[index] = value""", name='setitem without reindex')
-mut('C15', 'grid', """        super(Grid, self).extend(values)  # Python 2 compatible :-(
-        # super().extend(values)  # Python 3+ :-)
-        self.reindex()""", """        super(Grid, self).extend(values)  # Python 2 compatible :-(
-        for item in self._row:
-            if "id" in item:
-                self._index[str(item["id"])] = item""", name='revert fix: extend')
-mut('C15', 'grid', """            if not self._index:
-                self.reindex()
-            self._index[str(value["id"])] = value""", """            self._index[str(value["id"])] = value""", name='insert without ensure-index')
-mut('C15', 'grid', 'self._index[str(value["id"])] = value', 'self._index[value["id"]] = value')
-mut('C15', 'grid', "return self._index[str(key)]", "return self._index[key]")
-mut('C15', 'grid', """        self._index = {}
-        for item in self._row:""", """        if self._index is None:
-            self._index = {}
-        for item in self._row:""", name='reindex keeps stale entries')
-mut('C15', 'grid', "return self._index.get(str(index), default)", "return self._index.get(str(index))")
-mut('C15', 'grid', "            result._index=None\n", "            result._index=self._index\n")
-mut('C15', 'zincparser', "    g.extend(map(lambda row: dict(zip(col_meta.keys(), row)), rows))", "    g._row.extend(map(lambda row: dict(zip(col_meta.keys(), row)), rows))")
-
-# ---- C12 / C13 -----------------------------------------------------------------------
-mut('C12', 'datatypes', "return 'XStr(%r, %r)' % (self.encoding, self.data_to_string())", "return '%s(\"%s\")' % (self.encoding, self.data_to_string())", name='revert fix: XStr repr')
-mut('C12', 'datatypes', """        return '%s(%r, %r, %r)' % (
-            self.__class__.__name__, self.name, self.value, self.has_value
-        )""", """        return '%s(%r, %s, %r)' % (
-            self.__class__.__name__, self.name, self.value, self.has_value
-        )""", name='Ref repr with %s')
-mut('C12', 'grid_filter', "def_filter.append(repr(node))", "def_filter.append(str(node))")
-mut('C12', 'grid_filter', "return FilterAST(hs_filter.parseString(filter, parseAll=True)[0])", "return FilterAST(hs_filter.parseString(filter, parseAll=False)[0])")
-mut('C12', 'grid_filter', "hs_id = Regex(r'[a-z][a-zA-Z0-9_]*')", "hs_id = Regex(r'[a-z][a-zA-Z0-9_\\]\\[)(,]*')")
-mut('C12', 'grid_filter', 'hs_cmpOp = Literal("==") | Literal("!=")', 'hs_cmpOp = Regex(r"[=!<>a-z(]+") | Literal("==") | Literal("!=")')
-mut('C12', 'datatypes', """        return '%s(%s)' % (self.__class__.__name__,
-                           super(Uri, self).__repr__())""", """        return '%s(%s)' % (self.__class__.__name__, self)""", name='Uri repr unquoted')
-mut('C12', 'grid', """        result = Grid(version=self.version, metadata=self.metadata, columns=self.column)
-        fn = filter_function(filter)""", """        result = Grid(version=self.version, metadata=self.metadata, columns=self.column)
-        self.metadata['lastFilter'] = filter
-        fn = filter_function(filter)""", name='filter writes self.metadata')
-mut('C12', 'grid_filter', "def _get_path(grid, obj, paths):\n    try:", "def _get_path(grid, obj, paths):\n    import os\n    try:")
-mut('C13', 'grid_filter', """    with _id_function_lock:
-        fun_name = "_gen_hsfilter_" + str(_id_function)
-        _id_function += 1""", """    fun_name = "_gen_hsfilter_" + str(_id_function)
-    _id_function += 1""", name='revert fix: lock')
-mut('C13', 'grid_filter', """    with _id_function_lock:
-        fun_name = "_gen_hsfilter_" + str(_id_function)
-        _id_function += 1""", """    fun_name = "_gen_hsfilter_" + str(_id_function)
-    with _id_function_lock:
-        _id_function += 1""", name='read outside lock')
-mut('C13', 'grid_filter', 'fun_name = "_gen_hsfilter_" + str(_id_function)', 'fun_name = "_gen_hsfilter_" + str(len(filter))')
-mut('C13', 'grid_filter', "del globals()[self.fun_name]", "del globals()[sorted(k for k in globals() if k.startswith('_gen_hsfilter_'))[0]]")
-mut('C13', 'grid_filter', "def _filter_function(filter):", "def _filter_function(filter, *extra):")
-mut('C13', 'grid_filter', "    return _filter_function(filter).get()", "    return _filter_function(filter.strip()[:32]).get()")
-mut('C13', 'grid_filter', "        _id_function += 1\n", "        _id_function += 0\n")
-
-# ---- C11 -----------------------------------------------------------------------------
-mut('C11', 'grid_filter', 'hs_condAnd = (hs_term + ZeroOrMore(Literal("and") + hs_term)).setParseAction(_fold_left)',
-    'hs_condAnd = (hs_term + ZeroOrMore(Literal("and") + hs_term)).setParseAction(\n    lambda toks: FilterBinary("and", toks[0], toks[2]) if len(toks) > 1 else toks[0])', name='revert fix: and fold')
-mut('C11', 'grid_filter', "for i in range(1, len(toks) - 1, 2):", "for i in range(1, len(toks) - 2, 2):", name='fold stops one operand early')
-mut('C11', 'grid_filter', "node = FilterBinary(toks[i], node, toks[i + 1])", "node = FilterBinary(toks[i], toks[i - 1], toks[i + 1])", name='fold does not accumulate')
-mut('C11', 'grid_filter', 'hs_condOr = (hs_condAnd + ZeroOrMore(Literal("or") + hs_condAnd))', 'hs_condOr = (hs_term + ZeroOrMore(Literal("or") + hs_term))', name='or over terms')
-mut('C11', 'grid_filter', "hs_term = hs_parens | hs_missing | hs_cmp | hs_has", "hs_term = hs_parens | hs_missing | hs_has | hs_cmp")
-mut('C11', 'grid_filter', 'hs_cmpOp = Literal("==") | Literal("!=") | Literal("<=") | Literal(">=") | Literal("<") | Literal(">")',
-    'hs_cmpOp = Literal("==") | Literal("!=") | Literal("<") | Literal("<=") | Literal(">=") | Literal(">")')
-mut('C11', 'grid_filter', "lambda toks: FilterBinary(toks[1], toks[0], toks[2])", "lambda toks: FilterBinary(toks[1], toks[2], toks[0])")
-mut('C11', 'grid_filter', "def_filter.append(') !=  id(NOT_FOUND))')", "def_filter.append(') ==  id(NOT_FOUND))')")
-mut('C11', 'grid_filter', """        def_filter.append("(")
-        def_filter.extend(_generate_filter_in_python(node.left, []))
-        def_filter.append(" " + node.op + " ")
-        def_filter.extend(_generate_filter_in_python(node.right, []))
-        def_filter.append(")")""", """        def_filter.extend(_generate_filter_in_python(node.left, []))
-        def_filter.append(" " + node.op + " ")
-        def_filter.extend(_generate_filter_in_python(node.right, []))""", name='no parentheses')
-mut('C11', 'grid_filter', "    '<': operator.lt, '<=': operator.le,", "    '<': operator.le, '<=': operator.lt,")
-mut('C11', 'grid_filter', "        return _COMPARE_OPS[op](left, right)\n    except TypeError:", "        return _COMPARE_OPS[op](left, right)\n    except KeyError:")
-mut('C11', 'grid_filter', "    except (KeyError, TypeError, IndexError):", "    except KeyError:", name='revert fix: _get_path TypeError')
-mut('C11', 'grid_filter', """    def __lt__(self, other):
-        return False
-""", "", name='sentinel without __lt__')
-mut('C11', 'grid_filter', """    def __ne__(self, other):
-        return False
-
-    def __lt__""", """    def __ne__(self, other):
-        return True
-
-    def __lt__""", name='sentinel != is True')
-mut('C11', 'grid_filter', "if i != len(paths)-1 and isinstance(obj, Ref):", "if isinstance(obj, Ref):")
-mut('C11', 'grid_filter', "import datetime\n", "from datetime import datetime\n", name='revert fix: datetime module')
-mut('C11', 'grid_filter', """.setParseAction(
-    lambda toks: [_unescape(toks[0], uri=False)]
-)""", "", name='revert fix: str unescape')
-mut('C11', 'grid_filter', "lambda toks: Uri(_unescape(toks[0], uri=True))", "lambda toks: Uri(_unescape(toks[0], uri=False))")
-mut('C11', 'grid_filter', r"""hs_strChar = Regex(r"([^\x00-\x1f\\\"]|\\[bfnrt\\\"$]|\\[uU][0-9a-fA-F]{4})")""",
-    r"""hs_strChar = Regex(r"([^\x00-\x1f\\\"]|\\[bfnrt\\\"]|\\[uU][0-9a-fA-F]{4})")""", name='filter strChar loses \\$')
-mut('C11', 'grid', "            if limit and len(result)==limit:", "            if limit and len(result)>limit:")
-mut('C11', 'grid', "            if fn(self, row):\n                result.append(row)", "            if not fn(self, row):\n                result.append(row)")
-mut('C11', 'grid', "        for row in self._row:\n            if fn(self, row):", "        for row in reversed(self._row):\n            if fn(self, row):")
-mut('C11', 'grid', """        result = Grid(version=self.version, metadata=self.metadata, columns=self.column)
-        fn = filter_function(filter)""", """        result = Grid(version=self.version, columns=self.column)
-        fn = filter_function(filter)""")
-mut('C11', 'grid_filter', "           hs_number | hs_na | hs_null | hs_marker | hs_bool | \\", "           hs_number | hs_null | hs_na | hs_marker | hs_bool | \\")
-
-# ---- C10 -----------------------------------------------------------------------------
-mut('C10', 'zincdumper', """    elif scalar is NA:
-        if Version.nearest(version) < VER_3_0:
-            raise ValueError('Project Haystack version %s ' \\
-                             'does not support NA' \\
-                             % version)
-        return 'NA'""", """    elif scalar is NA:
-        return 'NA'""", name='zinc writer: NA gate deleted')
-mut('C10', 'jsondumper', """def dump_list(lst, version=LATEST_VER):
-    if Version.nearest(version) < VER_3_0:""", """def dump_list(lst, version=LATEST_VER):
-    if Version.nearest(version) <= VER_3_0:""", name='json dump_list <=')
-mut('C10', 'jsondumper', """def dump_dict(dic, version=LATEST_VER):
-    if Version.nearest(version) < VER_3_0:""", """def dump_dict(dic, version=LATEST_VER):
-    if version < VER_3_0:""", name='revert fix: raw version in dump_dict')
-mut('C10', 'grid', "                or isinstance(val, dict) \\\n", "", name='detect_or_validate forgets dict')
-mut('C10', 'grid', "                or isinstance(val, XStr) \\\n", "", name='revert fix: XStr in detect_or_validate')
-mut('C10', 'grid', """        for val in value.values():
-            self._detect_or_validate(val)
-        self._row.insert(index, value)""", """        self._row.insert(index, value)""", name='insert skips validation')
-mut('C10', 'grid', "self.column = SortableDict(validate_fn=self._validate_column)", "self.column = SortableDict()", name='revert fix: column validator')
-mut('C10', 'grid', "            if self._version_given:", "            if not self._version_given:")
-mut('C10', 'grid', "        if self.nearest_version < version:", "        if self._version < version:")
-mut('C10', 'jsonparser', """    elif scalar == NA_STR:
-        if Version.nearest(version) < VER_3_0:
-            raise ValueError('NA is not supported in Haystack version %s' \\
-                             % version)
-        return NA""", """    elif scalar == NA_STR:
-        return NA""", name='revert fix: json reader NA gate')
-mut('C10', 'zincparser', "                      hs_remove, hs_bool]).setName('scalar')", "                      hs_remove, hs_bool, hs_list[VER_2_0]]).setName('scalar')", name='2.0 grammar gains lists')
-mut('C10', 'zincparser', "                      hs_date, hs_time, hs_coord, hs_number, hs_null, hs_marker,\n                      hs_remove, hs_bool]).setName('scalar')", "                      hs_date, hs_time, hs_coord, hs_number, hs_na, hs_null, hs_marker,\n                      hs_remove, hs_bool]).setName('scalar')", name='2.0 grammar gains NA')
-mut('C10', 'zincparser', "        nearest = Version.nearest(ver)\n        g = self._known_grammars[nearest]", "        nearest = VER_3_0 if ver > VER_2_0 else VER_2_0\n        g = self._known_grammars[nearest]")
-mut('C10', 'grid', "        self.metadata = MetadataObject(validate_fn=self._detect_or_validate)", "        self.metadata = MetadataObject()")
-mut('C10', 'zincdumper', "            raise ValueError('Project Haystack version %s ' \\\n                             'does not support lists' \\\n                             % version)", "            raise NotImplementedError('lists')")
-
-# ---- C08 (ZINC escapes) ------------------------------------------------------------
-mut('C08', 'zincdumper', "STR_META = re.compile(r'([\\\\\"\\$\\u0080-\\uffff])')", "STR_META = re.compile(r'([\\\\\"\\u0080-\\uffff])')", 'OK', name='$ no longer escaped (reader accepts raw $)')
-mut('C08', 'zincdumper', "STR_META = re.compile(r'([\\\\\"\\$\\u0080-\\uffff])')", "STR_META = re.compile(r'([\"\\$\\u0080-\\uffff])')", name='backslash no longer escaped')
-mut('C08', 'zincdumper', "STR_META = re.compile(r'([\\\\\"\\$\\u0080-\\uffff])')", "STR_META = re.compile(r'([\\\\\\$\\u0080-\\uffff])')", name='quote no longer escaped')
-mut('C08', 'datatypes', "    ('\\r', '\\\\r'),\n", "", 'OK', name='STR_SUB loses \\r (falls back to \\u000d)')
-mut('C08', 'datatypes', "    ('\\r', '\\\\r'),\n", "    ('\\r', '\\\\n'),\n", name='\\r written as \\n')
-mut('C08', 'zincdumper', """    str_value = STR_META.sub(str_sub, str_value)
-    # Replace other escapes.
-    for orig, esc in STR_SUB:
-        str_value = str_value.replace(orig, esc)""", """    for orig, esc in STR_SUB:
-        str_value = str_value.replace(orig, esc)
-    str_value = STR_META.sub(str_sub, str_value)""", name='phases swapped')
-mut('C08', 'zincdumper', """    if o >= 0x0080:
-        # Unicode
-        return '\\\\u%04x' % o
-    elif c in '\\\\"$':""", """    if o >= 0x0080:
-        # Unicode
-        return '\\\\u%x' % o
-    elif c in '\\\\"$':""", name='%04x -> %x')
-mut('C08', 'zincdumper', "    return '\\\\u%04x' % ord(match.group(0))", "    return '\\\\x%02x' % ord(match.group(0))", name='control chars as \\xNN')
-mut('C08', 'zincparser', "                elif esc_c == 'n':\n                    out += '\\n'", "                elif esc_c == 'n':\n                    out += '\\r'", name='_unescape maps \\n to CR')
-mut('C08', 'zincparser', "out += six.unichr(int(s[2:6], base=16))\n                s = s[6:]", "out += six.unichr(int(s[2:6], base=16))\n                s = s[5:]", name='_unescape consumes 5 for \\u')
-mut('C08', 'zincparser', 'hs_strChar = Regex(r"([^\\x00-\\x1f\\\\\\"]|', 'hs_strChar = Regex(r"([^\\x00-\\x1f\\\\\\"\']|', name="reader rejects apostrophe")
-mut('C08', 'zincparser', ".setParseAction(lambda toks: [_unescape(toks[0], uri=False)])", ".setParseAction(lambda toks: [toks[0]])", name='hs_str without unescape')
-mut('C08', 'zincdumper', "        return '@%s %s' % (ref.name, dump_str(ref.value))", "        return '@%s \"%s\"' % (ref.name, ref.value)", name='Ref display unescaped')
-mut('C08', 'zincdumper', "                       dump_str(xstr_value.data_to_string(), version=version))", "                       '\"%s\"' % xstr_value.data_to_string())", name='revert fix: XStr payload raw')
-mut('C08', 'zincdumper', "URI_META = re.compile(r'([\\\\`\\u0080-\\uffff])')", "URI_META = re.compile(r'([\\\\\\u0080-\\uffff])')", name='backtick no longer escaped in URIs')
-mut('C08', 'zincdumper', """    str_value = CTRL_META.sub(ctrl_sub, str_value)
-""", "", name='revert fix: control characters raw')
-mut('C08', 'zincdumper', "    elif c in '\\\\\"$':\n        return '\\\\%s' % c", "    elif c in '\\\\\"':\n        return '\\\\%s' % c", name='str_sub forgets $ (deleted)')
-
-# ---- C01 / C04 ---------------------------------------------------------------------
-LADDER_STR = """    elif isinstance(scalar, six.string_types):
-        return dump_str(scalar, version=version)
-"""
-LADDER_URI = """    elif isinstance(scalar, Uri):
-        return dump_uri(scalar, version=version)
-"""
-mut('C01', 'zincdumper', LADDER_URI + LADDER_STR, LADDER_STR + LADDER_URI, name='str branch before Uri')
-mut('C01', 'zincdumper', """    elif isinstance(scalar, datetime.datetime):
-        return dump_date_time(scalar, version=version)
-    elif isinstance(scalar, datetime.time):
-        return dump_time(scalar, version=version)
-    elif isinstance(scalar, datetime.date):
-        return dump_date(scalar, version=version)
-""", """    elif isinstance(scalar, datetime.date):
-        return dump_date(scalar, version=version)
-    elif isinstance(scalar, datetime.datetime):
-        return dump_date_time(scalar, version=version)
-    elif isinstance(scalar, datetime.time):
-        return dump_time(scalar, version=version)
-""", name='date branch before datetime')
-mut('C01', 'zincdumper', """    elif isinstance(scalar, Coordinate):
-        return dump_coord(scalar, version=version)
-""", "", name='Coordinate branch deleted')
-mut('C01', 'zincdumper', "        return '@%s %s' % (ref.name, dump_str(ref.value))", "        return '@%s%s' % (ref.name, dump_str(ref.value))", name='ref display without blank')
-mut('C01', 'zincdumper', "    return 'C(%f,%f)' % (coordinate.latitude, coordinate.longitude)", "    return 'C(%f;%f)' % (coordinate.latitude, coordinate.longitude)")
-mut('C01', 'zincdumper', "    return time.isoformat()", "    return time.strftime('%H:%M:%S')", name='time via strftime (drops microseconds)')
-mut('C01', 'zincdumper', """            return '-INF'
-    return str(decimal)""", """            return '-INF'
-    return '%f' % decimal""", name='numbers via %f')
-mut('C01', 'zincdumper', "    return '\\n'.join([header, columns] + rows + [''])", "    return '\\n'.join([header, columns] + rows)", name='no final newline')
-mut('C01', 'zincdumper', "    return '\\n'.join([header, columns] + rows + [''])", "    return ''.join([header, columns] + rows + [''])", name='rows joined with nothing')
-mut('C01', 'zincdumper', "    return ','.join(map(_dump, *_cols))", "    return ';'.join(map(_dump, *_cols))", name='columns joined with ;')
-mut('C01', 'zincdumper', "        return '%s:%s' % (dump_id(item_id, version=version), \\\n", "        return '%s=%s' % (dump_id(item_id, version=version), \\\n", name='meta pair with =')
-mut('C01', 'zincdumper', "    return '%s %s' % (date_time.isoformat(), tz_name)", "    return '%s%s' % (date_time.isoformat(), tz_name)", name='datetime without blank before zone')
-mut('C01', 'zincdumper', """        elif decimal == float('inf'):
-            return 'INF'""", """        elif decimal == float('inf'):
-            return 'Inf'""", name='INF misspelt')
-mut('C01', 'zincdumper', """        if decimal != decimal:
-            return 'NaN'
-        elif""", """        if False:
-            return 'NaN'
-        elif""", name='revert fix: nan')
-mut('C01', 'zincdumper', "        return '{' + ' '.join([k + ':' + dump_scalar(v, version=version) for (k, v) in scalar.items()]) + '}'", "        return '{' + ','.join([k + ':' + dump_scalar(v, version=version) for (k, v) in scalar.items()]) + '}'", name='dict items joined with comma')
-mut('C01', 'zincdumper', "        return \"<<\" + dump_grid(scalar) + \">>\"", "        return \"<\" + dump_grid(scalar) + \">\"", name='nested grid single brackets')
-mut('C01', 'zincparser', "hs_tzName = Regex(r'[A-Z][a-zA-Z0-9_\\-]*')", "hs_tzName = Regex(r'[A-Z][a-z_]*')", name='reader zone names without digits/caps')
-mut('C01', 'zincparser', "hs_refChar = Or([hs_alpha, hs_digit, Word('_:-.~', exact=1)])", "hs_refChar = Or([hs_alpha, hs_digit, Word('_:-.', exact=1)])", name='reader refChar loses ~')
-mut('C01', 'zincparser', "hs_scalar_2_0 <<= Or([hs_ref, hs_bin, hs_str, hs_uri, hs_dateTime,", "hs_scalar_2_0 <<= Or([hs_ref, hs_bin, hs_str, hs_uri,", name='2.0 grammar loses dateTime')
-mut('C01', 'zincparser', "    g.extend(map(lambda row: dict(zip(col_meta.keys(), row)), rows))", "    g.extend(map(lambda row: dict(zip(sorted(col_meta.keys()), row)), rows))", name='cells zipped onto sorted names')
-mut('C01', 'zincparser', "hs_bool = Word('TF', min=1, max=1, exact=1).setParseAction( \\\n    lambda toks: [toks[0] == 'T'])", "hs_bool = Word('TF', min=1, max=1, exact=1).setParseAction( \\\n    lambda toks: [toks[0]])", name='reader bool yields text')
-mut('C01', 'dumper', "        return '\\n'.join(map(_dump, grids))", "        return ''.join(map(_dump, grids))", name='grids joined without blank line')
-mut('C01', 'zincdumper', "    return 'T' if bool(bool_value) else 'F'", "    return 'T' if bool(bool_value) else 'N'", name='False written as N')
-mut('C04', 'zincdumper', """        elif decimal == float('inf'):
-            return 'INF'""", """        elif decimal == float('inf'):
-            return 'Inf'""", name='INF misspelt')
-mut('C04', 'zincdumper', """    if Version.nearest(version) < VER_3_0:
-        return 'Bin(%s)' % bin_value
-""", "", name='2.0 Bin written in 3.0 form')
-mut('C04', 'zincdumper', "        return '\\\\u%04x' % o\n    elif c in '\\\\\"$':", "        return '\\\\U%04x' % o\n    elif c in '\\\\\"$':", name='\\U escape (reader lenient, spec not)')
-mut('C04', 'zincdumper', "    return ','.join([dump_scalar(row.get(c), version=grid.version) for \\\n                     c in list(grid.column.keys())])", "    return ','.join([dump_scalar(row.get(c), version=grid.version) for \\\n                     c in list(row.keys())])", name='row ranges over its own keys')
-mut('C04', 'zincdumper', "    header = 'ver:%s' % dump_str(str(grid._version), version=grid._version)", "    header = 'ver:%s' % str(grid._version)", name='header version unquoted')
-mut('C04', 'zincdumper', "    return 'C(%f,%f)' % (coordinate.latitude, coordinate.longitude)", "    return 'C(%s,%s)' % (coordinate.latitude, coordinate.longitude)", name='coordinate via str (exponent forms)')
-mut('C04', 'zincdumper', "    uri_value = CTRL_META.sub(ctrl_sub, uri_value)", "    for orig, esc in STR_SUB:\n        uri_value = uri_value.replace(orig, esc)\n    uri_value = CTRL_META.sub(ctrl_sub, uri_value)", name='URI with \\n escapes (not in the grammar)')
-
-# ---- C02 -----------------------------------------------------------------------------
-mut('C02', 'jsondumper', "    return u's:%s' % str_value", "    return u'%s' % str_value", name='strings without s: prefix')
-mut('C02', 'jsonparser', "REF_RE = re.compile(r'^r:([a-zA-Z0-9_:\\-.~]+)(:? (.*))?$',\n                    flags=re.DOTALL)", "REF_RE = re.compile(r'^r:([a-zA-Z0-9_:\\-.~]+)(:? (.*))?$',\n                    flags=re.MULTILINE)", name='revert fix: REF_RE flags')
-mut('C02', 'jsonparser', "URI_RE = re.compile(r'u:(.*)$', flags=re.DOTALL)", "URI_RE = re.compile(r'u:(.+)$', flags=re.DOTALL)", name='revert fix: empty URI')
-mut('C02', 'jsonparser', "        return XStr(*scalar[2:].split(':', 1))", "        return XStr(*scalar[2:].split(':'))", name='revert fix: XStr split')
-mut('C02', 'jsonparser', "REF_RE = re.compile(r'^r:([a-zA-Z0-9_:\\-.~]+)(:? (.*))?$',", "REF_RE = re.compile(r'^r:([a-zA-Z0-9_:\\-.~ ]+)(:? (.*))?$',", name='ref name class gains blank (split moves)')
-mut('C02', 'jsonparser', "    if scalar.startswith('s:'):\n        return scalar[2:]", "    if scalar.startswith('s:'):\n        return scalar[3:]", name='s: payload sliced at 3')
-mut('C02', 'jsonparser', """    # Is it a string?
-    if scalar.startswith('s:'):
-        return scalar[2:]
-
-    # Is it a xstr?""", """    # Is it a xstr?""", name='s: branch deleted')
-mut('C02', 'jsonparser', """    # Is it a number?
-    match = NUMBER_RE.match(scalar)""", """    # Is it a string?
-    if scalar.startswith('s:'):
-        return scalar[2:]
-    # Is it a number?
-    match = NUMBER_RE.match(scalar)""", 'OK', name='s: test moved before numbers (harmless)')
-mut('C02', 'jsondumper', "        return 'n:%f %s' % (quantity.value, quantity.unit)", "        return 'n:%f%s' % (quantity.value, quantity.unit)", name='quantity without blank before unit')
-mut('C02', 'jsondumper', "    return 'c:%f,%f' % (coordinate.latitude, coordinate.longitude)", "    return 'c:%f %f' % (coordinate.latitude, coordinate.longitude)")
-mut('C02', 'jsondumper', "    return 'h:%s' % time.isoformat()", "    return 'h:%s' % time.strftime('%H:%M')", name='time without seconds (lossy)')
-mut('C02', 'jsondumper', "    return 'd:%s' % date.isoformat()", "    return 'd:%s' % date.strftime('%Y%m%d')", name='date compact form')
-mut('C02', 'jsondumper', """        if Version.nearest(version) < VER_3_0:
-            return REMOVE2_STR
-        else:
-            return REMOVE3_STR""", """        if Version.nearest(version) < VER_3_0:
-            return REMOVE3_STR
-        else:
-            return REMOVE2_STR""", name='Remove spellings swapped')
-mut('C02', 'jsonparser', "REMOVE3_STR = '-:'", "REMOVE3_STR = 'r:'", name='3.0 Remove spelled r:')
-mut('C02', 'jsonparser', "DATE_RE = re.compile(r'^d:(\\d{4})-(\\d{2})-(\\d{2})$', flags=re.MULTILINE)", "DATE_RE = re.compile(r'^d:(\\d{4})-(\\d{2})$', flags=re.MULTILINE)")
-mut('C02', 'jsonparser', "(:? ([A-Za-z\\-+_0-9]+))?$',", "(:? ([A-Za-z_0-9]+))?$',", name='zone names without - and +')
-mut('C02', 'jsonparser', "        grid.column[name] = meta", "        grid.column[name] = {}", name='column metadata dropped')
-mut('C02', 'jsonparser', "    metadata = {}\n    for name, value in meta.items():\n        metadata[name] = parse_embedded_scalar(value, version=version)", "    metadata = {}\n    for name, value in sorted(meta.items()):\n        metadata[name] = parse_embedded_scalar(value, version=version)", name='metadata decoded in sorted order')
-mut('C02', 'jsondumper', "        _meta['ver'] = str(version)", "        _meta['version'] = str(version)")
-mut('C02', 'jsondumper', "    elif isinstance(scalar, bool):\n        return dump_bool(scalar, version=version)\n", "", name='bool branch deleted (falls to number)')
-mut('C02', 'jsonparser', "    elif isinstance(scalar, bool):\n        return scalar\n", "", name='reader bool branch deleted')
-
-# ---- C05 / C06 / C08.D2 --------------------------------------------------------------
-mut('C05', 'jsonparser', "        parsed = copy.deepcopy(grid_str)", "        parsed = grid_str", name='input no longer deep-copied')
-mut('C05', 'jsonparser', "        parsed = copy.deepcopy(grid_str)", "        parsed = dict(grid_str)", name='shallow copy only (cols/meta still shared)')
-mut('C05', 'jsonparser', "NUMBER_RE = re.compile(r'^n:(-?\\d+(:?\\.\\d+)?(:?[eE][+\\-]?\\d+)?)(:? (.*))?$',", "NUMBER_RE = re.compile(r'^n:(-?\\d+(:?\\.\\d+)?)(:? (.*))?$',", name='NUMBER_RE loses exponent')
-mut('C05', 'jsonparser', "TIME_RE = re.compile(r'^h:(\\d{2}):(\\d{2})(:?:(\\d{2}(:?\\.\\d+)?))?$',", "TIME_RE = re.compile(r'^h:(\\d{2}):(\\d{2})(:?:(\\d{2}(:?\\.\\d+)?))$',", name='TIME_RE requires seconds')
-mut('C05', 'jsonparser', "    elif (scalar == REMOVE2_STR) or (scalar == REMOVE3_STR):", "    elif (scalar == REMOVE3_STR):", name='2.0 Remove spelling no longer read (becomes XStr / error)')
-mut('C05', 'jsonparser', "    elif scalar == 'n:-INF':\n        return -float('INF')\n", "", name='n:-INF branch deleted')
-mut('C05', 'jsonparser', "    for row in (parsed.pop('rows', []) or []):", "    for row in parsed.pop('rows'):", name='rows required')
-mut('C05', 'jsonparser', """    elif isinstance(scalar, float) or isinstance(scalar, six.integer_types):
-        return scalar
-""", "", name='raw JSON numbers reach the regexes')
-mut('C05', 'jsonparser', "(:? ([A-Za-z\\-+_0-9]+))?$',", "(:? ([A-Za-z\\-+_0-9]+))$',", name='zone name mandatory')
-mut('C05', 'jsonparser', "    if scalar.startswith('s:'):\n        return scalar[2:]\n", "    if scalar.startswith('s:'):\n        return scalar[2:].strip()\n", name='payload post-processed (strip)')
-mut('C05', 'jsonparser', "        name = col.pop('name')", "        name = col['name']", 'OK', name='(benign) name read without pop: name lands in column meta')
-mut('C06', 'jsondumper', "    return u'b:%s' % bin_value", "    return u'bin:%s' % bin_value")
-mut('C06', 'jsondumper', "    return 'c:%f,%f' % (coordinate.latitude, coordinate.longitude)", "    return 'c:%s,%s' % (coordinate.latitude, coordinate.longitude)", name='coordinate via str (exponent forms)')
-mut('C06', 'jsondumper', "            return 'n:INF'", "            return 'n:Infinity'")
-mut('C06', 'jsondumper', "    return json.dumps(_dump_grid_to_json(grid))", "    return str(_dump_grid_to_json(grid)).replace(\"'\", '\"')", name='hand-made JSON text')
-mut('C06', 'jsondumper', "        'rows': dump_rows(grid),\n", "        'rows': dump_rows(grid),\n        'count': len(grid),\n", name='extra top-level key')
-mut('C06', 'jsondumper', "        return u'r:%s %s' % (ref.name, ref.value)", "        return u'r:%s:%s' % (ref.name, ref.value)", name='ref display after colon')
-mut('C06', 'jsondumper', "    return 't:%s %s' % (date_time.isoformat(), tz_name)", "    return 't:%s' % date_time.isoformat()", 'OK', name='zone name omitted (still well-formed)')
-mut('C08', 'jsondumper', "    return u'x:%s:%s' % (xstr_value.encoding, xstr_value.data_to_string())", "    return u'x:%s %s' % (xstr_value.encoding, xstr_value.data_to_string())", name='xstr with blank separator')
-
-# ---- C03 -----------------------------------------------------------------------------
-mut('C03', 'zincparser', "hs_digits = Regex(r'[0-9_]+')", "hs_digits = Regex(r'[0-9]+')", name='digits lose _ separators')
-mut('C03', 'zincparser', "hs_nl = Combine(And([Optional(Literal('\\r')), Literal('\\n')]))", "hs_nl = Combine(And([Literal('\\n')]))", name='CRLF no longer accepted')
-mut('C03', 'zincparser', "            Suppress(Optional(hs_valueSep)), \\\n", "", name='trailing comma in lists rejected')
-mut('C03', 'zincparser', "hs_dateSep = CaselessLiteral('T')", "hs_dateSep = Literal('T')", name='lower-case t rejected')
-mut('C03', 'zincparser', "    CaselessLiteral('z'),", "    Literal('Z'),", name='lower-case z rejected')
-mut('C03', 'zincparser', "hs_valueSep = Regex(r' *, *').setName('valueSep')", "hs_valueSep = Regex(r', *').setName('valueSep')", name='blank before comma rejected')
-mut('C03', 'zincparser', "        Literal('NaN')\n    ]).setParseAction(lambda toks: [float(toks[0])])", "        Literal('Nan')\n    ]).setParseAction(lambda toks: [float(toks[0])])", name='NaN misspelt in reader')
-mut('C03', 'zincparser', "    lambda toks: [toks[0] == 'T'])", "    lambda toks: [toks[0] == 'F'])", name='T and F exchanged')
-mut('C03', 'zincparser', "    lambda toks: [''.join([t.replace('_', '') for t in toks[0]])])", "    lambda toks: [toks[0]])", name='digits keep _ (float fails)')
-mut('C03', 'zincparser', "                elif esc_c == 't':\n                    out += '\\t'", "                elif esc_c == 't':\n                    out += ' '", name='\\t decodes to blank')
-mut('C03', 'zincparser', "            if esc_c in ('u', 'U'):", "            if esc_c in ('U',):", name='\\u no longer decoded')
-mut('C03', 'zincparser', "hs_exp = Combine(And([\n    CaselessLiteral('e'),", "hs_exp = Combine(And([\n    Literal('e'),", name='upper-case E exponent rejected')
-mut('C03', 'zincparser', "    Optional(hs_tzHHMMOffset)\n])).setParseAction(lambda toks: [iso8601.parse_date(toks[0].upper())])", "    hs_tzHHMMOffset\n])).setParseAction(lambda toks: [iso8601.parse_date(toks[0].upper())])", 'OK', name='offset mandatory (spec requires it)')
-mut('C03', 'zincparser', "    Optional(And([\n        Suppress(Literal(' ')),\n        hs_timeZoneName\n    ]))\n]).setParseAction(_parse_datetime)", "    And([\n        Suppress(Literal(' ')),\n        hs_timeZoneName\n    ])\n]).setParseAction(_parse_datetime)", name='zone name mandatory')
-mut('C03', 'zincparser', "    lambda ver: Or([Empty().copy().setParseAction(lambda toks: [None]), \\\n                    hs_scalar[ver]]).setName('cell'))", "    lambda ver: Or([hs_scalar[ver]]).setName('cell'))", name='empty cells rejected')
-mut('C03', 'parser', "        if grid_str:\n            grid_str += '\\n'\n", "", name='revert fix: final newline')
-mut('C03', 'parser', "GRID_SEP = re.compile(r'(?<=\\n)(?:\\r?\\n)+')", "GRID_SEP = re.compile(r'(?<=\\n)\\n+')", name='revert fix: CRLF separator')
-mut('C03', 'parser', "        grid_data = [g for g in GRID_SEP.split(grid_str) if g]", "        grid_data = GRID_SEP.split(grid_str)", name='revert fix: empty input')
-mut('C03', 'parser', "        if grids:\n            return grids[0]", "        if grids:\n            return grids[-1]", name='single returns the last grid')
-mut('C03', 'zincparser', "        (whole, frac) = time_str.split('.', 1)\n        time_str = whole + '.' + frac[:6]\n", "", name='revert fix: time fraction digits')
-mut('C03', 'zincparser', "    Regex(u'[%_/$\\u0080-\\U0010ffff]')", "    Regex(u'[%_/$\\u0080-\\ufffe]')", name='revert fix: unit chars')
-mut('C03', 'zincparser', "VERSION_RE = re.compile(r'^ver:\"(([^\"\\\\]|\\\\[\\\\\"bfnrt$])+)\"')", "VERSION_RE = re.compile(r'^ver:\"([0-9]\\.[0-9])\"')", name='version sniffer only accepts d.d')
-mut('C03', 'zincparser', "hs_scalar_3_0 <<= Or([hs_ref, hs_xstr, hs_str, hs_uri, hs_dateTime,\n                      hs_date, hs_time, hs_coord, hs_number, hs_na, hs_null,", "hs_scalar_3_0 <<= Or([hs_ref, hs_xstr, hs_str, hs_uri, hs_dateTime,\n                      hs_date, hs_time, hs_coord, hs_null, hs_number, hs_na,", 'OK', name='reordering under longest-match Or (harmless)')
-
-# ---- C09 -----------------------------------------------------------------------------
-mut('C09', 'zincparser', """    except:
-        LOG.debug('Failing grid: %r', grid_data, exc_info=1)
-        (_, exc, _) = sys.exc_info()
-        raise ZincParseException(
-            'Failed to parse: %s' % exc, grid_data, 0, 0)
-""", "", name='catch-all handler removed')
-mut('C09', 'zincparser', """        raise ZincParseException(
-            'Failed to parse: %s' % exc, grid_data, 0, 0)""", """        raise ValueError('Failed to parse: %s' % exc)""", name='catch-all raises plain ValueError')
-mut('C09', 'zincparser', "def parse_grid(grid_data, parseAll=True):", "def parse_grid(grid_data, parseAll=False):")
-mut('C09', 'zincparser', "def reformat_exception(ex_msg, line_num=None):\n", "def reformat_exception(ex_msg, line_num=None):\n    print(ex_msg)\n", name='revert fix: debug print in handler path')
-mut('C09', 'zincparser', "def reformat_exception(ex_msg, line_num=None):\n", "def reformat_exception(ex_msg, line_num=None):\n    open('/tmp/zinc-errors.log', 'a').write(str(ex_msg))\n", name='handler path writes a log file')
-mut('C09', 'zincparser', "    return [datetime.datetime.strptime(time_str, time_fmt).time()]", "    return [TIME_CACHE[time_str]]", 'OK', name='(unknown callee: not judged)')
-mut('C09', 'zincparser', "    Suppress(Regex(r'\\[ *\\]')), \\\n", "    Suppress(Regex(r'[ *]')), \\\n", name='revert fix: [ *] accepts a lone *')
-mut('C09', 'zincparser', "hs_id = Regex(r'[a-z][a-zA-Z0-9_]*').setName('id')", "hs_id = Regex(r'[a-zA-Z][a-zA-Z0-9_]*').setName('id')", name='tag names may start upper-case')
-mut('C09', 'zincparser', 'hs_strChar = Regex(r"([^\\x00-\\x1f\\\\\\"]|\\\\[bfnrt\\\\\\"$]|', 'hs_strChar = Regex(r"([^\\x00-\\x1f\\\\\\"]|\\\\.|', name='any escape accepted')
-mut('C09', 'zincparser', "class ZincParseException(ValueError):", "class ZincParseException(Exception):")
-mut('C09', 'zincparser', "            Suppress(Regex(r' *\\]')) \\\n", "            Suppress(Optional(Regex(r' *\\]'))) \\\n", name='closing bracket optional')
-mut('C09', 'zincparser', "        return hs_scalar[version].parseString(scalar_data, parseAll=True)[0]", "        return hs_scalar[version].parseString(scalar_data)[0]", name='scalar parse without parseAll')
-mut('C09', 'datatypes', "                self.data = bytearray.fromhex(data)", "                self.data = HEX_TABLE[data]", 'OK', name='(unknown callee: not judged)')
-
-# ---- C17 -----------------------------------------------------------------------------
-mut('C17', 'zoneinfo', "        if dt.astimezone(pytz.timezone(olson_name)).utcoffset() == offset:", "        if pytz.timezone(olson_name).utcoffset(dt.replace(tzinfo=None)) == offset:", name='revert fix: wall-time utcoffset in the scan')
-mut('C17', 'zoneinfo', "        if dt.astimezone(pytz.timezone(olson_name)).utcoffset() == offset:\n            return haystack_name", "        if True:\n            return haystack_name", name='scan returns the first zone')
-mut('C17', 'zoneinfo', "    if offset == datetime.timedelta(0):\n        # UTC?\n        return 'UTC'", "    if offset <= datetime.timedelta(hours=1):\n        # UTC?\n        return 'UTC'", name='UTC shortcut too generous')
-mut('C17', 'zoneinfo', "        _TZ_RMAP = dict([(z,n) for (n,z) in list(_TZ_MAP.items())])", "        _TZ_RMAP = dict([(z,n.lower()) for (n,z) in list(_TZ_MAP.items())])", name='reverse map not the swap')
-mut('C17', 'zoneinfo', "        if suffix in todo:\n            tz_map[suffix] = full_tz\n            todo.discard(suffix)\n            continue", "        if suffix in HAYSTACK_TIMEZONES_SET:\n            tz_map[suffix] = full_tz\n            continue", name='suffix re-mapped by later zones')
-mut('C17', 'zincparser', "            return [isodt.astimezone(tz)]", "            return [isodt.replace(tzinfo=tz)]", name='zinc reader replace(tzinfo)')
-mut('C17', 'jsonparser', "                return isodate.astimezone(tz)", "                return tz.localize(isodate.replace(tzinfo=None))", name='json reader localize')
-mut('C17', 'zincdumper', "    return '%s %s' % (date_time.isoformat(), tz_name)", "    return '%s %s' % (date_time.astimezone(pytz.utc).isoformat(), tz_name)", name='writer converts to UTC but keeps the zone name')
-mut('C17', 'zoneinfo', "    raise ValueError('Unable to get timezone of %r' % dt)", "    return 'UTC'", name='unmappable tz written as UTC')
-mut('C17', 'zoneinfo', "    except AttributeError:\n        # Not a pytz-compatible tzinfo\n        pass\n", "", name='AttributeError no longer caught')
-
-# ---- C07 -----------------------------------------------------------------------------
-mut('C07', 'jsondumper', "    _meta = dict(map(_dump, list(meta.items())))\n    if grid:\n        _meta['ver'] = str(version)\n    return _meta", "    if grid:\n        meta['ver'] = str(version)\n    _meta = dict(map(_dump, list(meta.items())))\n    return _meta", name='ver stored into the grid metadata itself')
-mut('C07', 'zincdumper', "    return ','.join([dump_scalar(row.get(c), version=grid.version) for \\\n                     c in list(grid.column.keys())])", "    return ','.join([dump_scalar(row.pop(c, None), version=grid.version) for \\\n                     c in list(grid.column.keys())])", name='row.pop instead of row.get')
-mut('C07', 'zincdumper', "def dump_rows(grid):\n    return list(map(functools.partial(dump_row, grid), grid))", "def dump_rows(grid):\n    grid.reverse()\n    return list(map(functools.partial(dump_row, grid), grid))", name='rows reversed in place')
-mut('C07', 'jsondumper', "def dump_column(col, col_meta, version=LATEST_VER):\n    if bool(col_meta):\n        _meta = dump_meta(col_meta, version=version)\n    else:\n        _meta = {}", "def dump_column(col, col_meta, version=LATEST_VER):\n    if bool(col_meta):\n        _meta = dump_meta(col_meta, version=version)\n    else:\n        _meta = col_meta", name='column meta aliased then name stored into it')
-mut('C07', 'zincdumper', "    return ' '.join(map(_dump, list(meta.items())))", "    return ' '.join(map(_dump, set(meta.items())))", name='metadata items iterated through a set')
-mut('C07', 'jsondumper', "    elif isinstance(scalar, Coordinate):\n        return dump_coord(scalar, version=version)\n", "", name='JSON ladder loses Coordinate')
-mut('C07', 'zincdumper', "        if Version.nearest(version) < VER_3_0:\n            raise ValueError('Project Haystack version %s ' \\\n                             'does not support dicts' \\", "        if version < VER_3_0:\n            raise ValueError('Project Haystack version %s ' \\\n                             'does not support dicts' \\", name='raw version compare in zinc dict gate')
-mut('C07', 'zoneinfo', "    for full_tz in pytz.all_timezones:", "    for full_tz in set(pytz.all_timezones):", name='zone map built by iterating a set')
+M = controls.M
 
 
 def run(selected):
